@@ -636,6 +636,10 @@ func redactPipelineStage(stage interface{}, redactFieldNames bool, keyPath []str
 			return stage
 		}
 		if str, ok := stage.(string); ok && len(str) > 0 && str[0] == '$' {
+			// a '$field' reference: kept, or renamed like the field itself
+			if redactFieldNames {
+				return HashName(str)
+			}
 			return stage
 		}
 		// a scalar operand of an operator that takes an array of expressions ($and, $or, ...)
